@@ -123,10 +123,18 @@ PROPS["C13"] = {
              "c13_remoteip: SDP text assembled from session/media c= lines and candidate attributes with generated addresses (local, "
              "boundary, mapped, junk, truncated lines) or arbitrary strings, fed to the proxy's address extraction: no panic; a returned "
              "address is never local/loopback/unspecified and equals the first remote candidate address. Non-trivial = structured text "
-             "with at least one candidate."),
+             "with at least one candidate. c13_proxy_offers / c13_client_answers: a real pion offer (answer) re-typed (offer, answer, "
+             "pranswer, rollback, empty, upper case, unknown) and/or with 0-2 of 32 named SDP mutations (ICE credentials, fingerprint, "
+             "setup, mid, media/connection/origin lines dropped or duplicated, truncation, r= line, junk line, NUL byte, LF line ends, "
+             "huge port, bogus setup, short fingerprint, RTP protocol, extra audio section, ...) handed by a scripted broker to the real "
+             "proxy session (runSession, real PeerConnection) / the real client peer construction: the process survives (a crash is "
+             "attributed through the case journal), the call returns within the data-channel timeout plus slack, the proxy's slot comes "
+             "back. All cases non-trivial (each is a damaged description)."),
     "assumptions": [],
     "units": [U("c13_sessdesc", "ext", "c13", "^TestVerifC13SessDesc$", (8000, 100000)),
-              U("c13_remoteip", "inpkg", "proxy/lib", "^TestVerifC13RemoteIP$", (3000, 40000))],
+              U("c13_remoteip", "inpkg", "proxy/lib", "^TestVerifC13RemoteIP$", (3000, 40000)),
+              U("c13_proxy_offers", "inpkg", "proxy/lib", "^TestVerifC13ProxyOffers$", (40, 400), shards=(4, 8), timeout=(400, 3000)),
+              U("c13_client_answers", "inpkg", "client/lib", "^TestVerifC13ClientAnswers$", (40, 400), shards=(4, 8), timeout=(400, 3000))],
 }
 META["C13"] = {
     "level": "Sampled exploration over a JSON grammar with deliberate type confusion plus arbitrary strings; oracle = round trip and 'value or error, never panic'; the in-package part covers the proxy's address extraction from SDP text.",
